@@ -31,6 +31,29 @@ import (
 	"github.com/ollama/ollama/zzverif"
 )
 
+// c09LockedWriter serialises writes to the recorder.  handlePull writes its first status line from
+// the handler goroutine while the trace callback (start → flushProgress) may write and flush from
+// the goroutine that runs Pull; httptest.ResponseRecorder is not safe for that (a run of this driver
+// died in "concurrent map writes").  The race is in /repo (robustness, outside C09); the driver only
+// needs the final stream.
+type c09LockedWriter struct {
+	mu  sync.Mutex
+	rec *httptest.ResponseRecorder
+}
+
+func (w *c09LockedWriter) Header() http.Header {
+	w.mu.Lock()
+	defer w.mu.Unlock()
+	return w.rec.Header()
+}
+func (w *c09LockedWriter) Write(b []byte) (int, error) {
+	w.mu.Lock()
+	defer w.mu.Unlock()
+	return w.rec.Write(b)
+}
+func (w *c09LockedWriter) WriteHeader(c int) { w.mu.Lock(); defer w.mu.Unlock(); w.rec.WriteHeader(c) }
+func (w *c09LockedWriter) Flush()            { w.mu.Lock(); defer w.mu.Unlock(); w.rec.Flush() }
+
 type c09RetryReg struct {
 	mu       sync.Mutex
 	class    string
@@ -158,7 +181,7 @@ func TestVerifC09RetryTable(t *testing.T) {
 			req := httptest.NewRequest("POST", "/api/pull", strings.NewReader(`{"model":"http://example.com/library/r"}`)).WithContext(ctx)
 			rec := httptest.NewRecorder()
 			done := make(chan struct{})
-			go func() { defer close(done); s.ServeHTTP(rec, req) }()
+			go func() { defer close(done); s.ServeHTTP(&c09LockedWriter{rec: rec}, req) }()
 			select {
 			case <-done:
 			case <-time.After(10 * time.Minute): // fake time: far beyond any backoff
@@ -385,7 +408,7 @@ func TestVerifC09Handler(t *testing.T) {
 			req := httptest.NewRequest("POST", "/api/pull", strings.NewReader(reqBody)).WithContext(ctx)
 			rec := httptest.NewRecorder()
 			done := make(chan struct{})
-			go func() { defer close(done); s.ServeHTTP(rec, req) }()
+			go func() { defer close(done); s.ServeHTTP(&c09LockedWriter{rec: rec}, req) }()
 			select {
 			case <-done:
 			case <-time.After(time.Hour): // fake time, far beyond every backoff
